@@ -55,11 +55,11 @@ META["C12"] = dict(
 )
 
 META["C16"] = dict(
-    engine="codec",
+    engine="codec+lang",
     design_ref="DESIGN.md 3/C16",
     technique="property-based testing of a two-version relation: rapid-generated field set A and edit sequence (add/remove/rename/reorder) giving reader view A'; read-under-A' and merge-through-A'-writer oracles over the dynamic tag API",
     level_text="Exploration (dynamic layer): for generated messages and edit sequences, fields common to both versions read back unchanged, fields only in the data are ignored, fields only in the reader read as the declared kind's zero with presence false, and Copy/Merge through a writer that pre-writes A'-only and overriding fields preserves every other field byte-for-byte (also across the compact/big table switch when an added tag exceeds 255).",
-    level_note="The generated-code layer (two compiled schema versions) belongs to the lang engine and is added there; until then this check covers the wire-level semantics that generated accessors delegate to.",
+    level_note="Two layers: the dynamic tag API (volume) and generated code of two compiled schema versions (fidelity: va writer -> vb reader, absent fields read as zero, merge through a vb writer read back under va). Kind changes of a surviving tag and reuse of a removed tag are outside the property.",
 )
 
 META["C17"] = dict(
